@@ -37,6 +37,14 @@ def make_case(seed, tier):
                     'at_step': rng.randint(1, 160) if rng.random() < 0.4
                     else int(round(math.exp(rng.uniform(
                         math.log(3), math.log(120)))))}]
+    if rng.random() < 0.25:
+        # the tree (or a part of it) is paused before it is stopped
+        stop = case['ops'][0]
+        case['ops'].insert(0, {
+            'op': 'pause',
+            'target': rng.choice(['root', 'root', 'sub:0', 'sub:1']),
+            'at_step': max(1, stop['at_step'] - rng.randint(1, 40))})
+        stop['at_step'] += rng.choice([0, 5, 20])
     if rng.random() < 0.3:
         case['faults'] = [{'at_step': rng.randint(5, 150), 'kind': 'delay',
                            'method': 'on_action_complete',
@@ -142,16 +150,68 @@ def evaluate(case, res):
                             'task %s is %s' % (lab.any(d['id']),
                                                lab.any(pt['id']),
                                                pt['state']), sig))
-            # nothing new below a cancelled execution afterwards
+            # nothing new below a cancelled execution afterwards: neither a
+            # task nor a sub-workflow execution
             cno0 = stopped_at[wid][0]
-            below = set(d['id'] for d in
-                        c10.descendants(snap['wf'], snap['task'], wid))
-            for e in res.recorder.events:
-                if e.op == 'insert' and e.committed and \
-                        e.table == trace.TASK and \
-                        e.vals.get('workflow_execution_id') in below:
-                    # commit number of this event
-                    pass
+            for cno, step, actor, changes in hist.iterate():
+                if cno <= cno0:
+                    continue
+                for table, id_, old, new in changes:
+                    if old is not None or new is None or \
+                            table not in (trace.TASK, trace.WF):
+                        continue
+                    # walk up to see whether the new row hangs below wid
+                    cur = new
+                    tbl = table
+                    hops = 0
+                    under = False
+                    while cur is not None and hops < 12:
+                        hops += 1
+                        if tbl == trace.TASK:
+                            pw = cur.get('workflow_execution_id')
+                            if pw == wid:
+                                under = True
+                                break
+                            cur = hist.rows[trace.WF].get(pw)
+                            tbl = trace.WF
+                        else:
+                            pt = cur.get('task_execution_id')
+                            if not pt:
+                                break
+                            cur = hist.rows[trace.TASK].get(pt)
+                            tbl = trace.TASK
+                    if under and not (table == trace.TASK and
+                                      new.get('workflow_execution_id')
+                                      == wid):
+                        # the task that was created (IDLE) before the
+                        # cancel and whose start request was still in
+                        # flight: open finding F37
+                        tag = ' below'
+                        top = new
+                        if table == trace.TASK:
+                            top = hist.rows[trace.WF].get(
+                                new.get('workflow_execution_id')) or {}
+                        chain = []
+                        cur = top
+                        while cur and cur.get('task_execution_id') and \
+                                len(chain) < 12:
+                            ptk = hist.rows[trace.TASK].get(
+                                cur['task_execution_id']) or {}
+                            chain.append(ptk)
+                            cur = hist.rows[trace.WF].get(
+                                ptk.get('workflow_execution_id'))
+                        if any(p.get('_created_commit', 1 << 30) <= cno0
+                               for p in chain) and \
+                                actor.startswith('rpc:start_'):
+                            tag += ' idle_task_started_after_cancel'
+                        out.append((
+                            'C11.task_created_after_stop',
+                            '%s %s created at step %d by %s below '
+                            'execution %s, which was cancelled at commit '
+                            '%d' % ('task' if table == trace.TASK else
+                                    'sub-workflow execution',
+                                    lab.any(id_), step, actor,
+                                    lab.any(wid), cno0), sig + tag))
     # a child reports to its parent exactly once
     resets = trace.reset_by_route_ids(res)
     for tid, n in completions.items():
